@@ -238,3 +238,93 @@ Example rspt_ok_example :
   rspt_ok 101 2 [[0; 0]; [0; 2]] [[1; 1]; [1; 0]] [0; 1; 50]
           [[1; 0; 0]; [0; 50; 25]] 0 = true.
 Proof. vm_compute. reflexivity. Qed.
+
+(* ---- orthonormality of explicitly constructed states ------------------- *)
+(* a state is a list of coefficient polynomials (one per determinant) *)
+Fixpoint pdotp (A B : list poly) : poly :=
+  match A, B with
+  | a :: A', b :: B' => padd (pmul a b) (pdotp A' B')
+  | _, _ => []
+  end.
+
+Lemma peval_pdotp A : forall B x,
+  peval (pdotp A B) x = dotv (values A x) (values B x).
+Proof.
+  induction A as [|a A IH]; intros [|b B] x; cbn [pdotp values map dotv peval];
+    try reflexivity.
+  rewrite peval_padd, peval_pmul. fold (values A x) (values B x).
+  rewrite IH. reflexivity.
+Qed.
+
+Lemma dotv_comm a : forall b, dotv a b = dotv b a.
+Proof.
+  induction a as [|x a IH]; intros [|y b]; cbn [dotv]; try reflexivity.
+  rewrite IH. ring.
+Qed.
+
+Definition ortho_row (p : Z) (N : nat) (A : list poly)
+  (rest : list (list poly)) : bool :=
+  forallb (fun B => low_zero p (S N) (pdotp A B)) rest.
+
+Fixpoint ortho_ok (p : Z) (N : nat) (states : list (list poly)) : bool :=
+  match states with
+  | [] => true
+  | A :: rest =>
+      norm_ok p N (pdotp A A) && ortho_row p N A rest && ortho_ok p N rest
+  end.
+
+Definition delta (i j : nat) : Z := if Nat.eqb i j then 1 else 0.
+
+Lemma ortho_ok_le p N : forall states,
+  ortho_ok p N states = true ->
+  forall i j A B x, (i <= j)%nat ->
+    nth_error states i = Some A -> nth_error states j = Some B ->
+    exists rem,
+      (dotv (values A x) (values B x)) mod p
+      = (delta i j + x ^ Z.of_nat (S N) * rem) mod p.
+Proof.
+  induction states as [|S0 rest IH]; intros H i j A B x Hij Ei Ej.
+  - destruct i; discriminate.
+  - cbn [ortho_ok] in H. apply andb_prop in H as [H Hrest].
+    apply andb_prop in H as [Hn Hrow].
+    destruct i as [|i].
+    + cbn [nth_error] in Ei. injection Ei as <-.
+      destruct j as [|j].
+      * cbn [nth_error] in Ej. injection Ej as <-.
+        exists (peval (skipn (S N) (pdotp S0 S0)) x).
+        rewrite <- peval_pdotp. unfold delta. cbn [Nat.eqb].
+        apply norm_ok_sound. exact Hn.
+      * cbn [nth_error] in Ej. apply nth_error_In in Ej.
+        unfold ortho_row in Hrow. rewrite forallb_forall in Hrow.
+        specialize (Hrow B Ej).
+        exists (peval (skipn (S N) (pdotp S0 B)) x).
+        rewrite <- peval_pdotp. unfold delta. cbn [Nat.eqb].
+        rewrite Z.add_0_l. apply low_zero_sound. exact Hrow.
+    + destruct j as [|j]; [lia|].
+      cbn [nth_error] in Ei, Ej.
+      destruct (IH Hrest i j A B x ltac:(lia) Ei Ej) as [rem Hrem].
+      exists rem. unfold delta in *. cbn [Nat.eqb]. exact Hrem.
+Qed.
+
+(* acceptance means: the states are orthonormal through order N for every
+   value x of the perturbation parameter *)
+Theorem ortho_ok_sound p N states :
+  ortho_ok p N states = true ->
+  forall i j A B x,
+    nth_error states i = Some A -> nth_error states j = Some B ->
+    exists rem,
+      (dotv (values A x) (values B x)) mod p
+      = (delta i j + x ^ Z.of_nat (S N) * rem) mod p.
+Proof.
+  intros H i j A B x Ei Ej.
+  destruct (Nat.le_gt_cases i j) as [Hij|Hij].
+  - eapply ortho_ok_le; eassumption.
+  - destruct (ortho_ok_le p N states H j i B A x ltac:(lia) Ej Ei) as [rem Hr].
+    exists rem. rewrite dotv_comm.
+    replace (delta i j) with (delta j i); [exact Hr|].
+    unfold delta. rewrite (Nat.eqb_sym j i). reflexivity.
+Qed.
+
+Example ortho_ok_example :
+  ortho_ok 101 1 [[[1]; [0; 1]]; [[0; 100]; [1]]] = true.
+Proof. vm_compute. reflexivity. Qed.
